@@ -36,7 +36,8 @@ const (
 	childMarker   = "C15-CHILD-RESULT "
 	childHeadroom = 768 << 20 // address space a child may add to what it has mapped at start
 	allocBound    = 64 << 20  // what a decoder of a 50-byte stream may never allocate
-	headerBound   = 4096      // what header decoding may allocate
+	headerBound   = 64 << 10  // absolute cap on what header decoding may allocate
+	headerSlack   = 1024      // header decoding of a huge announced length may allocate this much more than of length 0
 	tailBytes     = 32        // payload bytes actually present after the header
 )
 
@@ -583,8 +584,9 @@ func TestExtremeLengths(t *testing.T) {
 	hx.Part("extreme announced lengths: entry point x length table x masked (child processes)", int64(mine+len(rest)), true)
 }
 
-// TestHeaderAlloc: header decoding allocates < 4 KiB whatever length is
-// announced, and with MaxFrameSize set an oversized frame is refused with the
+// TestHeaderAlloc: header decoding does not allocate in proportion to the
+// announced length (at most 1 KiB more than for a header announcing 0 bytes,
+// and never 64 KiB), and with MaxFrameSize set an oversized frame is refused with the
 // transport positioned right after its header. One child runs the whole table
 // (TotalAlloc delta around each call, warm path, GC off).
 func TestHeaderAlloc(t *testing.T) {
@@ -604,7 +606,21 @@ func TestHeaderAlloc(t *testing.T) {
 	if len(cases) == 0 {
 		return
 	}
-	results, tail, err := runChild(cases)
+	// every shard also measures the length-0 baseline of the (entry, masked) pairs it holds:
+	// "does not allocate in proportion to the announced length" is judged against it
+	run := append([]xcase(nil), cases...)
+	have := map[string]bool{}
+	for _, c := range cases {
+		have[c.key()] = true
+	}
+	for _, c := range cases {
+		b := xcase{Entry: c.Entry, Length: 0, Masked: c.Masked, Op: ref.OpBinary}
+		if !have[b.key()] {
+			have[b.key()] = true
+			run = append(run, b)
+		}
+	}
+	results, tail, err := runChild(run)
 	if err != nil {
 		t.Fatalf("VERIF-INFRA: %v\n%s", err, tail)
 	}
@@ -620,8 +636,9 @@ func TestHeaderAlloc(t *testing.T) {
 			hx.Failf(t, cd, "header decoding by %s of a header announcing %d bytes panicked: %s", c.Entry, c.Length, r.Panic)
 			return
 		}
-		if r.Alloc >= headerBound {
-			hx.Failf(t, cd, "header decoding by %s of a header announcing %d bytes allocated %d bytes (bound %d)", c.Entry, c.Length, r.Alloc, headerBound)
+		base, okb := results[xcase{Entry: c.Entry, Length: 0, Masked: c.Masked, Op: ref.OpBinary}.key()]
+		if r.Alloc >= headerBound || (okb && base.Panic == "" && r.Alloc > base.Alloc+headerSlack) {
+			hx.Failf(t, cd, "header decoding by %s of a header announcing %d bytes allocated %d bytes (a header announcing 0 bytes: %d; slack %d, absolute cap %d)", c.Entry, c.Length, r.Alloc, base.Alloc, headerSlack, headerBound)
 			return
 		}
 		if c.Entry == "NextFrame+Max" && c.Length > capLen {
